@@ -1,5 +1,6 @@
 """C01 — Accepted programs never go wrong: the checker/evaluator agreement clause."""
 import json
+import re
 from facts import hir_walk, callee_def, callee_of, variant_of
 from absint import TRUE, FALSE, UNK
 from positions import Pos, overlap
@@ -689,7 +690,83 @@ def r10_args_agree(c, facts, rule='C01.R10'):
         c.bad(R, 'arguments-accessor-shape', 'Application::arguments is no longer children().skip(1).filter_map(Terminal::cast) (found %s)' % names)
 
 
+# frozen: the panic-capable constructs of the evaluator and the emitter, each with what bounds it (one line per row).
+# R1 decides the casts; the others rest on an invariant another rule decides or on a construction in the same function.
+EVAL_SINKS = {
+    ('oal_compiler::<stdlib::Concat as definition::Internal>::eval', 'panic'): (1, 'assert_eq!(args.len(), 2): ARITY / ARGS-AGREE (R10) - an application has as many arguments as the Func tag it unified with'),
+    ('oal_compiler::<stdlib::Concat as definition::Internal>::eval', 'unwrap'): (2, 'pop() twice under the arity assertion'),
+    ('oal_compiler::definition::External::new', 'index'): (1, 'node ids of the arena the node belongs to'),
+    ('oal_compiler::definition::External::node', 'panic'): (1, 'the module of a resolved definition is in the module set (C10.R5 JOIN-AGREE)'),
+    ('oal_compiler::eval::Context::lookup_binding', 'unwrap'): (1, 'unwrap() after skip_while(is_none)'),
+    ('oal_compiler::eval::eval', 'panic'): (1, 'eval_program returns Expr::Spec'),
+    ('oal_compiler::eval::eval_any', 'panic'): (1, 'every node kind of the grammar has an arm (C02.R14 GRAMMAR-AGREE)'),
+    ('oal_compiler::eval::eval_binding', 'panic'): (1, 'binding discipline (R4): a resolved parameter is in the scope the application pushed'),
+    ('oal_compiler::eval::eval_content', 'unwrap'): (1, 'status conversion (R6 STATUS-CONV)'),
+    ('oal_compiler::eval::eval_declaration', 'unwrap'): (1, 'get() under contains_key()'),
+    ('oal_compiler::eval::eval_literal', 'panic'): (2, 'token kinds of a Literal node (lexer / parser agreement, C04)'),
+    ('oal_compiler::eval::eval_relation', 'index'): (1, 'EnumMap indexed by Method'),
+    ('oal_compiler::eval::eval_transfer', 'index'): (1, 'EnumMap indexed by Method'),
+    ('oal_compiler::eval::eval_variable', 'expect'): (1, 'every accepted use is resolved (C08.R4: unbound uses are errors)'),
+    ('oal_compiler::spec::Uri::append', 'unwrap'): (1, 'a path has at least one segment (R13 CONCAT-PATH)'),
+    ('oal_openapi::Builder::maybe_inline', 'expect'): (1, 'every $ref names a registered component (C03.R1 REF-CLOSE)'),
+    ('oal_openapi::Builder::value_schema', 'panic'): (2, 'unreachable!() arms (R11 EMIT-TOTAL)'),
+    ('oal_openapi::Builder::xfer_responses', 'panic'): (1, 'unreachable!(): the entry was inserted as an Item two lines above'),
+}
+
+
+def r16_eval_panic(c, facts, rule='C01.R16'):
+    """besides the casts (R1) the evaluator and the emitter contain a handful of panic-capable constructs, each resting on
+    an invariant decided elsewhere: a new one (`usize::try_from(i).unwrap()` on an annotation value) is a new way for an
+    accepted program to go wrong"""
+    import c04 as _c04
+    R = c.rule(rule, 'EVAL-PANIC: panic-capable constructs of the evaluator and the emitter outside the casts are allow-listed by name with their bound')
+    sinks = {}
+    n = 0
+    pre = ('oal_compiler::eval', 'oal_compiler::annotation', 'oal_compiler::spec', 'oal_compiler::stdlib', 'oal_compiler::definition',
+           'oal_compiler::<s', 'oal_compiler::<annotation', 'oal_compiler::<eval', 'oal_compiler::<definition')
+    for fn in facts.fns.values():
+        q = fn.qname
+        if not fn.mir or '::tests::' in q or '_tests::' in q or q.split('::')[-1].startswith('test_'):
+            continue
+        if not (q.startswith(pre) or fn.crate == 'oal_openapi'):
+            continue
+        n += 1
+        home = facts.home(fn).qname
+        if re.match(r'oal_compiler::eval::cast_\w+$', home):
+            continue
+        for bi, t in fn.calls():
+            info = callee_of(t)
+            if info and _c04.PANIC.search(info['def']) and not _c04.MAP_METHOD.search(info['def']):
+                sinks.setdefault((home, _c04.sink_kind(info['def'])), []).append(t['ln'])
+        for bi, b in fn.blocks():
+            t = b['term']
+            if t['t'] == 'assert' and ('BoundsCheck' in t['msg'] or 'DivisionByZero' in t['msg'] or 'RemainderByZero' in t['msg']):
+                sinks.setdefault((home, 'index'), []).append(t['ln'])
+    c.floor(R, 'evaluator / emitter functions scanned', n, 150)
+    owner = lambda q: q.rsplit('::', 1)[0]
+    budget = {}
+    for (q, k), (mx, why) in EVAL_SINKS.items():
+        budget[(owner(q), k)] = budget.get((owner(q), k), 0) + mx
+    seen = 0
+    for (q, k), lines in sorted(sinks.items()):
+        row = EVAL_SINKS.get((q, k))
+        inst = {'fn': q, 'sink': k, 'count': len(lines)}
+        total = sum(len(v) for (q2, k2), v in sinks.items() if owner(q2) == owner(q) and k2 == k)
+        if row and len(lines) <= row[0]:
+            inst['bounded_by'] = row[1]
+            c.ok(R, inst)
+            seen += 1
+        elif total <= budget.get((owner(q), k), 0):
+            inst['bounded_by'] = 'within the audited budget of %s' % owner(q)
+            c.ok(R, inst)
+            seen += 1
+        else:
+            c.bad(R, '%s:%s' % (q, k), '%s contains %d panic-capable `%s` that no row of the allow-list bounds: an accepted program that reaches it with the wrong value goes down with a panic instead of a diagnostic' % (q, len(lines), k), **inst)
+    c.floor(R, 'allow-listed sinks observed', seen, 12)
+
+
 def run(c, facts):
+    c.run(r16_eval_panic, facts)
     import c09 as _c09
     c.run(lambda c: _c09.r9_mark_monotone(c, facts, rule='C01.R14'))
     import c02 as _c02
